@@ -46,6 +46,7 @@ type Prop struct {
 	Shrink   func(in []int64) [][]int64         // optional: smaller candidate inputs
 	Known    func(in, out []int64) string       // optional: id of the known finding this failing case belongs to
 	Oracle   func(q []int64) []int64            // optional: answers ASK queries of the model
+	XProj    func(in, impl []int64) []int64     // optional: the part of the implementation's output the model can predict (the rest depends on internal nondeterminism the harness cannot observe, e.g. Go map order); X compares the model with this projection, the judge (sub 1/2) always sees the whole output.  Default: the whole output.
 	Describe func(in []int64) string            // optional: human-readable rendering for replays
 	Rule     string                             // how cases are generated; what counts as non-trivial
 }
@@ -337,7 +338,11 @@ func (t *T) eval2(in []int64) (*Failure, []int64) {
 		}
 		specOK = len(spec) == 1 && spec[0] == 1
 	}
-	if specOK && eqTok(model, impl) {
+	ximpl := impl
+	if p.XProj != nil {
+		ximpl = p.XProj(in, impl)
+	}
+	if specOK && eqTok(model, ximpl) {
 		return nil, impl
 	}
 	f := &Failure{In: in, Impl: impl, Model: model, Spec: spec}
